@@ -5,7 +5,10 @@ follows a symlink cycle, a retry loop that never gives up).  Such a call must be
 never a stuck check.  Three layers:
 
   soft   signal.setitimer(ITIMER_REAL): after `soft_s` seconds SIGALRM's handler raises `Runaway` in the
-         main thread.  Runaway derives from BaseException, so the library's `except Exception` handlers
+         main thread -- provided the operation has really been WORKING that long: on a machine that is busy
+         with other checks a healthy call can take several wall-clock seconds while consuming little CPU time,
+         so when the process used less than half of `soft_s` of CPU time since the call began the timer is
+         re-armed (up to `PATIENCE` x `soft_s` of wall time; a loop that sleeps or waits is ended then).  Runaway derives from BaseException, so the library's `except Exception` handlers
          cannot swallow it.  Interrupts Python-level loops and (via EINTR) blocking system calls.
   memory a watchdog thread samples the resident set size; when an operation has grown it by more than
          `mem_mb` the thread sends SIGALRM itself (same handler, reason "memory").
@@ -135,8 +138,17 @@ class Guard:
         return active, t0, d.get("label", ""), d.get("payload")
 
     # ---------------------------------------------------------------- signal + watchdog
+    PATIENCE = 8.0      # a call that is not burning CPU gets this many soft limits of wall time
+
     def _on_alarm(self, _sig: int, _frm: Any) -> None:
         if self._armed:
+            if self._reason == "time":
+                soft = getattr(self, "_soft_now", self.soft_s)
+                wall = time.monotonic() - getattr(self, "_t0_now", time.monotonic())
+                cpu = time.process_time() - getattr(self, "_cpu0_now", time.process_time())
+                if cpu < 0.5 * soft and wall < self.PATIENCE * soft:
+                    signal.setitimer(signal.ITIMER_REAL, soft)          # starved, not looping: wait on
+                    return
             self._armed = False
             raise Runaway(self._reason)
 
@@ -163,8 +175,10 @@ class Guard:
         self._reason = "time"
         self._active = (label, payload, t0, rss_mb())
         self._shm_write(True, t0, label, payload)
+        self._soft_now = soft_s if soft_s is not None else self.soft_s
+        self._t0_now, self._cpu0_now = t0, time.process_time()
         self._armed = True
-        signal.setitimer(signal.ITIMER_REAL, soft_s if soft_s is not None else self.soft_s)
+        signal.setitimer(signal.ITIMER_REAL, self._soft_now)
         try:
             try:
                 val = fn()
